@@ -178,6 +178,7 @@ def _cosmo(curved):
 
 
 _HTM = {}
+BINCOUNT_DEPTH = 6
 
 
 def _htm(depth=10):
@@ -404,8 +405,6 @@ def bind(name, opt, A, tmp):
     if name == "HTM.lookup_id":
         h = _htm(10 if opt == "depth10" else 4)
         return lambda: h.lookup_id(A["ra"], A["dec"])
-    if name == "HTM.intersect":
-        return lambda: _htm().intersect(A["ra"], A["dec"], A["radius"], inclusive=(opt == "inclusive"))
     if name in ("HTM.match", "Matcher.match"):
         kw = {"maxmatch1": {}, "maxmatch0": dict(maxmatch=0), "file": dict(file=os.path.join(tmp, "pairs.dat")), "radius_scalar": {}}[opt]
         if name == "HTM.match":
@@ -421,12 +420,12 @@ def bind(name, opt, A, tmp):
             kw["scale"] = A["scale"]
         if "htmid2" in A:
             kw["htmid2"] = A["htmid2"]
-        return lambda: _htm().bincount(0.01, 10.0, 3, A["ra1"], A["dec1"], A["ra2"], A["dec2"], **kw)
+        # depth 6 and a 1 degree outer radius: the cost of a pair count grows with (radius / triangle size)^2
+        # (depth 10 with 10 degrees took 1.5 - 4 s per invocation); the argument handling is the same
+        return lambda: _htm(BINCOUNT_DEPTH).bincount(0.01, 1.0, 3, A["ra1"], A["dec1"], A["ra2"], A["dec2"], **kw)
     if name == "HTM.cylmatch":
         return lambda: _htm().cylmatch(A["ra1"], A["dec1"], A["z1"], A["ra2"], A["dec2"], A["z2"], A["radius"], A["dz"],
                                        unique=(opt == "unique"))
-    if name == "HTM.match_prepare":
-        return lambda: _htm().match_prepare(A["ra"], A["dec"])
     raise MachineryError("no binding for catalogue entry %r" % name)
 
 
@@ -437,7 +436,7 @@ def build_args(case):
         lay = prm["lay"]
         kind = lay["kind"]
         if prm["role"] == "htmid2":
-            ids = _htm().lookup_id(np.array(ROLE_VALUES["lon"][0]), np.array(ROLE_VALUES["lat"][0]))
+            ids = _htm(BINCOUNT_DEPTH).lookup_id(np.array(ROLE_VALUES["lon"][0]), np.array(ROLE_VALUES["lat"][0]))
             base = ids.astype(kind).reshape(SHAPES[nd])
         elif kind == "tbl" and prm["role"] not in ("table", "table2", "table_target"):
             base = logical("table", "tbl", nd)           # byte-order conversion of a table
